@@ -332,10 +332,13 @@ func gcAlphabet(tier string) []Op {
 	alpha = append(alpha, removeOps([]int{0, 1})...)
 	alpha = append(alpha, Op{Kind: OpFlush},
 		Op{Kind: OpIdxGC, B: true}, Op{Kind: OpIdxGC, B: false},
-		Op{Kind: OpPriGC, A: 0}, Op{Kind: OpPriGC, A: 50}, Op{Kind: OpPriGC, A: 50, V: 1})
+		Op{Kind: OpPriGC, A: 0}, Op{Kind: OpPriGC, A: 50}, Op{Kind: OpPriGC, A: 50, V: 1},
+		// an index-GC cycle stopped by its time limit in its second file
+		// (the next cycle resumes there)
+		Op{Kind: OpIdxGC, B: false, A: 3})
 	if tier != "quick" {
 		alpha = append(alpha, Op{Kind: OpPriGC, A: 85}, Op{Kind: OpPriGC, A: 101},
-			Op{Kind: OpIdxGC, B: true, A: 2}, Op{Kind: OpIdxGC, B: false, A: 3},
+			Op{Kind: OpIdxGC, B: true, A: 2}, Op{Kind: OpIdxGC, B: false, A: 4},
 			Op{Kind: OpPriGC, A: 0, V: 1}, Op{Kind: OpPriGC, A: 50, V: 2},
 			Op{Kind: OpReopen, A: 0}, Op{Kind: OpReopen, A: 1})
 	}
@@ -374,6 +377,24 @@ func gcScenarios(prop, tier string) []*SeqScenario {
 				sc.Nontrivial = func(w *World, hist []Op) bool { return len(w.ledger.expected) > 0 }
 			}
 			scs = append(scs, sc)
+		}
+		// States that the short preambles cannot reach (C04 / C13 only, the
+		// bounded-progress oracle of C11 would need hundreds of cycles):
+		// a freelist larger than one 4 KiB read buffer, and a restart with
+		// flushed freelist entries that no GC cycle has consumed yet.
+		if prop == "C04" || prop == "C13" {
+			for _, lp := range largeStatePreambles() {
+				if lp.bulk && (c.PriFS == 1 || c.Primary == "cid") {
+					continue // hundreds of one-record files add nothing here
+				}
+				sc := &SeqScenario{Prop: prop, Name: "gc-" + lp.name, Cfg: c, Preamble: lp.ops, Alphabet: gcAlphabet(tier), Depth: lp.depth,
+					Setup: withLedger, Final: gcFinal, Nontrivial: gcNontrivial}
+				if prop == "C13" {
+					sc.Final, sc.Oracles = ledgerFinal, []string{"ledger"}
+					sc.Nontrivial = func(w *World, hist []Op) bool { return len(w.ledger.expected) > 0 }
+				}
+				scs = append(scs, sc)
+			}
 		}
 	}
 	return scs
@@ -605,14 +626,16 @@ func reportedStorage(w *World) (int64, error) {
 }
 
 func reclaimFinal(removeAll bool, threshold int) func(w *World, c *Collector) *Violation {
-	return reclaimFinalMode(removeAll, false, threshold)
+	return reclaimFinalMode(removeAll, false, threshold, 0)
 }
 
 // reclaimFinalMode: with partial set, only K0 is superseded, so that
 // files keep live records and the low-use clause is exercised: a non-current
 // primary file whose free share is at or above the threshold must be drained
 // by relocation and released like the others.
-func reclaimFinalMode(removeAll, partial bool, threshold int) func(w *World, c *Collector) *Violation {
+// cutFirst > 0: the first cycle after the premise is stopped by its time limit
+// (context error from its cutFirst-th poll on); progress must survive it.
+func reclaimFinalMode(removeAll, partial bool, threshold int, cutFirst int) func(w *World, c *Collector) *Violation {
 	return func(w *World, c *Collector) *Violation {
 		mp := w.mh()
 		// locations freed by the premise step itself (the collector only
@@ -750,13 +773,33 @@ func reclaimFinalMode(removeAll, partial bool, threshold int) func(w *World, c *
 			}
 			return nil
 		}
+		if cutFirst > 0 {
+			nerr := len(w.GCErrors)
+			if v := w.Step(Op{Kind: OpPriGC, A: threshold, V: cutFirst}); v != nil {
+				return v
+			}
+			if v := w.Step(Op{Kind: OpIdxGC, B: false, A: cutFirst + 2}); v != nil {
+				return v
+			}
+			// a cycle that stops at its time limit is not a failed cycle
+			w.GCErrors = w.GCErrors[:nerr]
+			c.count("reclaim.interrupted_first_cycles", 1)
+		}
+		errsBeforeLast := 0
 		for i := 0; i < K; i++ {
+			errsBeforeLast = len(w.GCErrors)
 			if v := cycle(); v != nil {
 				return v
 			}
 		}
-		if len(w.GCErrors) > 0 {
-			return violO("reclaim", "no-progress", "GC cycles failed: %v", w.GCErrors)
+		// A cycle that fails once and leaves the next cycle working (seen on
+		// the pinned tree: a resumed index-GC cycle whose resume file the
+		// free-file scan has just removed reports "cannot stat" once) delays
+		// the release by a cycle; a collector that still fails in the K-th
+		// cycle makes no progress.
+		c.count("reclaim.cycles_with_errors", int64(len(w.GCErrors)))
+		if len(w.GCErrors) > errsBeforeLast {
+			return violO("reclaim", "no-progress", "GC cycles still fail after %d cycles: %v", K, w.GCErrors)
 		}
 		for _, p := range prem {
 			sz, exists := fileSizeRaw(w.FS, p.path)
@@ -824,11 +867,11 @@ func c11Scenarios(tier string) []*SeqScenario {
 	for _, thr := range []int{50, 80} {
 		scs = append(scs, &SeqScenario{Prop: "C11", Name: fmt.Sprintf("c11/lowuse/thr=%d", thr), Cfg: lowUse,
 			Preamble: []Op{P(0, 5), P(1, 1), P(3, 2), opF, P(4, 1), opF}, Alphabet: alphaFor(thr), Depth: depth - 1,
-			Setup: withLedger, Final: reclaimFinalMode(true, true, thr), Oracles: []string{"reclaim"}})
+			Setup: withLedger, Final: reclaimFinalMode(true, true, thr, 0), Oracles: []string{"reclaim"}})
 		// the surviving record is the first record of the file (offset 0)
 		scs = append(scs, &SeqScenario{Prop: "C11", Name: fmt.Sprintf("c11/lowuse-first/thr=%d", thr), Cfg: lowUse,
 			Preamble: []Op{P(1, 1), P(0, 5), P(3, 2), opF, P(4, 1), opF}, Alphabet: alphaFor(thr), Depth: depth - 1,
-			Setup: withLedger, Final: reclaimFinalMode(true, true, thr), Oracles: []string{"reclaim"}})
+			Setup: withLedger, Final: reclaimFinalMode(true, true, thr, 0), Oracles: []string{"reclaim"}})
 	}
 	for _, c := range cfgs {
 		for pi, pre := range gcPreambles() {
@@ -843,9 +886,20 @@ func c11Scenarios(tier string) []*SeqScenario {
 					}
 					scs = append(scs, &SeqScenario{Prop: "C11", Name: fmt.Sprintf("c11/removeAll=%v/thr=%d", removeAll, thr), Cfg: c, Preamble: pre, Alphabet: alphaFor(thr), Depth: d,
 						Setup: withLedger, Final: reclaimFinal(removeAll, thr), Oracles: []string{"reclaim"}})
+					if removeAll && thr == 85 {
+						// the first cycle that sees the premise is stopped by its
+						// time limit (already expired / after one poll)
+						for _, cut := range []int{1, 2} {
+							if tier == "quick" && (cut == 2 || d < 2) {
+								continue
+							}
+							scs = append(scs, &SeqScenario{Prop: "C11", Name: fmt.Sprintf("c11/removeAll/thr=%d/cut-first=%d", thr, cut), Cfg: c, Preamble: pre, Alphabet: alphaFor(thr), Depth: d,
+								Setup: withLedger, Final: reclaimFinalMode(true, false, thr, cut), Oracles: []string{"reclaim"}})
+						}
+					}
 					if removeAll && c.Primary == "mh" && c.PriFS > 1 {
 						scs = append(scs, &SeqScenario{Prop: "C11", Name: fmt.Sprintf("c11/partial/thr=%d", thr), Cfg: c, Preamble: pre, Alphabet: alphaFor(thr), Depth: d,
-							Setup: withLedger, Final: reclaimFinalMode(true, true, thr), Oracles: []string{"reclaim"}})
+							Setup: withLedger, Final: reclaimFinalMode(true, true, thr, 0), Oracles: []string{"reclaim"}})
 					}
 				}
 			}
@@ -1402,4 +1456,31 @@ func c10CrashScenarios(tier string) []*CrashScenario {
 		}
 	}
 	return scs
+}
+
+type largePreamble struct {
+	name  string
+	ops   []Op
+	depth int
+	bulk  bool
+}
+
+func largeStatePreambles() []largePreamble {
+	P := func(k, v int) Op { return Op{Kind: OpPut, K: k, V: v} }
+	F := Op{Kind: OpFlush}
+	// 360 overwrites of two keys: 360 freelist entries = 4320 bytes, more
+	// than one 4096-byte buffer of the reader GC uses on the hand-over file
+	var bulk []Op
+	bulk = append(bulk, P(0, 1), P(1, 1), P(4, 1), F)
+	for i := 0; i < 360; i++ {
+		bulk = append(bulk, P(i%2, 1+(i/2+1)%2))
+		if i%120 == 119 {
+			bulk = append(bulk, F)
+		}
+	}
+	bulk = append(bulk, F)
+	return []largePreamble{
+		{"bulk-freelist", bulk, 1, true},
+		{"restart-with-pending-freelist", []Op{P(0, 1), P(1, 1), P(4, 1), F, P(0, 2), P(1, 2), F, {Kind: OpReopen, A: 0}}, 2, false},
+	}
 }
